@@ -205,3 +205,32 @@ func VerifXAEncodeResponse(typeURL, version, nonce string, values [][]byte) []by
 
 // VerifXAValue returns the raw bytes of a resource handed to a Decoder.
 func VerifXAValue(a *AnyProto) []byte { return a.value }
+
+// VerifXAHoldNamed is VerifXAHold for the authority `name` of Config.Authorities.
+func VerifXAHoldNamed(c *XDSClient, name string) (release func()) {
+	ch := make(chan struct{})
+	c.authorities[name].xdsClientSerializer.TrySchedule(func(ctx context.Context) {
+		select {
+		case <-ch:
+		case <-ctx.Done():
+		}
+	})
+	return func() { close(ch) }
+}
+
+// VerifXAChannelFlow reports, for the client-level channel to server uri: whether it exists, how many
+// authorities reference it and whether its ADS flow control is pending.
+func VerifXAChannelFlow(c *XDSClient, uri string) (exists bool, refs int, pending bool) {
+	c.channelsMu.Lock()
+	defer c.channelsMu.Unlock()
+	for sc, st := range c.xdsActiveChannels {
+		if sc.ServerIdentifier.ServerURI == uri {
+			fc := st.channel.ads.fc
+			fc.mu.Lock()
+			p := fc.pending
+			fc.mu.Unlock()
+			return true, len(st.interestedAuthorities), p
+		}
+	}
+	return false, 0, false
+}
